@@ -302,6 +302,24 @@ func CheckAgainstModel(s *Stores, m *Model, tape *core.Tape) *Problem {
 			}
 		}
 	}
+	// Ranges that reach outside what is stored must be refused, not answered
+	// with made-up entries: more ancestors than the stop block has, and (when
+	// the filter store lags) filter-header ancestors of a block above the
+	// filter tip.
+	{
+		end := uint32(tape.Intn(int(tipH) + 1))
+		eh := m.Blocks[end].BlockHash()
+		if hdrs, start, err := s.Block.FetchHeaderAncestors(end+1+uint32(tape.Intn(3)), &eh); err == nil {
+			return &Problem{"block-ancestors-out-of-range-answered", fmt.Sprintf("asked for more ancestors than block %d has: got %d headers from height %d", end, len(hdrs), start)}
+		}
+		if len(m.Filters) < len(m.Blocks) {
+			above := uint32(len(m.Filters) + tape.Intn(len(m.Blocks)-len(m.Filters)))
+			ah := m.Blocks[above].BlockHash()
+			if fhs, start, err := s.Filter.FetchHeaderAncestors(uint32(tape.Intn(int(above)+1)), &ah); err == nil {
+				return &Problem{"filter-ancestors-above-tip-answered", fmt.Sprintf("stop block %d is above the filter tip %d: got %d filter headers from height %d", above, len(m.Filters)-1, len(fhs), start)}
+			}
+		}
+	}
 	// Locator: first entry is the tip, heights strictly decrease, every
 	// entry is the model's hash at some height, and it ends at genesis.
 	loc, err := s.Block.LatestBlockLocator()
